@@ -210,7 +210,7 @@ impl Add<AffinePoint> for AffinePoint {
 
     fn add(self, other: AffinePoint) -> Element {
         let other_element: Element = other.into();
-        let self_element: Element = other.into();
+        let self_element: Element = self.into();
         self_element + other_element
     }
 }
